@@ -211,11 +211,13 @@ func runC02(c *Ctx) {
 					if iv.Tag != cr.Tag || !iv.Final || !iv.ByYield || lastResume > iv.FinalT+30*time.Second {
 						continue
 					}
-					if cr.Timeout > 0 && (iv.FinalT+2*time.Millisecond >= cr.SentT+time.Duration(cr.Timeout)*time.Millisecond || cr.SentT+time.Duration(cr.Timeout)*time.Millisecond <= lastResume) {
-						// the router-side timeout may have ended the call first - also while the
-						// RESULT was being held back for the caller, whose queue then had no room
-						// for the timeout ERROR either
-						continue
+					deadline := cr.SentT + time.Duration(cr.Timeout)*time.Millisecond
+					// a callee that streams progressive results hands its final YIELD over while an
+					// earlier progressive one may still be held back for the caller: the call is not
+					// complete for the dealer then, and its time-out may still end it
+					streaming := cr.Progress && (ce.Beh == BehProgress || ce.Beh == BehTwice)
+					if cr.Timeout > 0 && (iv.FinalT+2*time.Millisecond >= deadline || (streaming && deadline <= lastResume)) {
+						continue // the router-side timeout may have ended the call first
 					}
 					c.Probe("obligation_result_retry")
 					if st := states[cl][cr.Req]; st == nil || st.finals == 0 {
